@@ -260,3 +260,122 @@ func InspectInlined(df DeclFinder, info *types.Info, pkg *types.Package, body as
 	}
 	rec(body, nil, map[*ast.FuncDecl]bool{})
 }
+
+// ---------------------------------------------------------------------------------------
+// Ordered decision chains. `if a {…} else if b {…} else {…}`, a tagless `switch { case a: …
+// case b: … default: … }` and a run of early-leaving ifs `if a { return … }; if b { return … };
+// rest` are the same ordered classification; BranchChain reads any of them as a list of
+// (condition, body), the last one possibly unconditional.
+
+type Branch struct {
+	Cond ast.Expr // nil: the final else / default / remaining statements
+	Body []ast.Stmt
+	Pos  token.Pos
+}
+
+func stmtsLeave(list []ast.Stmt) bool {
+	if len(list) == 0 {
+		return false
+	}
+	switch s := list[len(list)-1].(type) {
+	case *ast.ReturnStmt:
+		return true
+	case *ast.BranchStmt:
+		return s.Tok == token.CONTINUE || s.Tok == token.BREAK || s.Tok == token.GOTO
+	case *ast.ExprStmt:
+		if c, ok := s.X.(*ast.CallExpr); ok {
+			if id, ok := c.Fun.(*ast.Ident); ok && id.Name == "panic" {
+				return true
+			}
+		}
+	case *ast.BlockStmt:
+		return stmtsLeave(s.List)
+	}
+	return false
+}
+
+// BranchChain reads the chain that starts at list[i]; nil if list[i] starts none.
+func BranchChain(list []ast.Stmt, i int) []Branch {
+	var out []Branch
+	switch s := list[i].(type) {
+	case *ast.IfStmt:
+		cur := s
+		for cur != nil {
+			if cur.Init != nil {
+				return nil
+			}
+			out = append(out, Branch{Cond: cur.Cond, Body: cur.Body.List, Pos: cur.Pos()})
+			switch e := cur.Else.(type) {
+			case *ast.IfStmt:
+				cur = e
+				continue
+			case *ast.BlockStmt:
+				out = append(out, Branch{Body: e.List, Pos: e.Pos()})
+				return out
+			}
+			// no else: when the body leaves, what follows is the else
+			if !stmtsLeave(cur.Body.List) || i+1 >= len(list) {
+				return out
+			}
+			i++
+			if next, ok := list[i].(*ast.IfStmt); ok {
+				cur = next
+				continue
+			}
+			if sw, ok := list[i].(*ast.SwitchStmt); ok && sw.Tag == nil && sw.Init == nil {
+				return append(out, BranchChain(list, i)...)
+			}
+			out = append(out, Branch{Body: list[i:], Pos: list[i].Pos()})
+			return out
+		}
+	case *ast.SwitchStmt:
+		if s.Tag != nil || s.Init != nil {
+			return nil
+		}
+		var def *ast.CaseClause
+		for _, c := range s.Body.List {
+			cc := c.(*ast.CaseClause)
+			if cc.List == nil {
+				def = cc
+				continue
+			}
+			for _, st := range cc.Body {
+				if b, ok := st.(*ast.BranchStmt); ok && b.Tok == token.FALLTHROUGH {
+					return nil
+				}
+			}
+			for _, e := range cc.List {
+				out = append(out, Branch{Cond: e, Body: cc.Body, Pos: cc.Pos()})
+			}
+		}
+		if def != nil {
+			out = append(out, Branch{Body: def.Body, Pos: def.Pos()})
+		} else if i+1 < len(list) {
+			all := true
+			for _, b := range out {
+				if !stmtsLeave(b.Body) {
+					all = false
+				}
+			}
+			if all {
+				out = append(out, Branch{Body: list[i+1:], Pos: list[i+1].Pos()})
+			}
+		}
+	}
+	return out
+}
+
+// StmtLists enumerates every statement list of a body (blocks and case clauses).
+func StmtLists(body ast.Node, f func(list []ast.Stmt)) {
+	ast.Inspect(body, func(n ast.Node) bool {
+		switch b := n.(type) {
+		case *ast.BlockStmt:
+			f(b.List)
+		case *ast.CaseClause:
+			f(b.Body)
+		case *ast.CommClause:
+			f(b.Body)
+		}
+		return true
+	})
+}
